@@ -154,7 +154,7 @@ pub fn explore(ctx: &Ctx) {
         }
     });
     // range API vs per-day API
-    let mut spans: Vec<i64> = (-3..=if quick { 40 } else { 400 }).collect();
+    let mut spans: Vec<i64> = (-3..=if quick { 120 } else { 400 }).collect();
     spans.extend([-400, -30, 59, 60, 365, 366, 367, 730, 1000, 2000]);
     let sites = [Site::new(39.0, -77.0, 0.0, -5.0), Site::new(-33.9, 151.2, 0.0, 10.0), Site::new(58.3, -134.4, 0.0, -9.0)];
     let psets = [Params::new(Method::Isna), params(Method::UmmAlQurra, ExtremeLatitudeMethod::SeventhOfNightFajrIshaInvalid, RoundSeconds::None)];
